@@ -10,3 +10,4 @@ EXPLANATION = ('CSSMatch.match/select/closest/filter are proved to be the views 
 LEVEL_TEXT = EXPLANATION
 TIMEOUT_MS = {'quick': 20000, 'thorough': 120000}
 MUSTFAIL_PER_FN = {'quick': 1, 'thorough': 6}
+BOUNDED = [hub_bounded('C03-entry-points', ['basic', 'nows', 'multiroot', 'identical', 'iframe', 'small', 'api', 'plain'], ['core'])]
